@@ -31,6 +31,12 @@ func r01h(c *core.Ctx) {
 		n++
 		ok := true
 		why := ""
+		if core.NilAt(v, at.Block()) == core.NonNil {
+			// the value itself was just tested (`if err != nil { return newSectionErr(…, err) }`), whatever merged into it
+			c.OK(fmt.Sprintf("wrapped-cause-non-nil:%s#%d", core.FuncName(fn), n), at.Pos(), fn,
+				"an error wrapper whose Error() dereferences its cause is built around a non-nil cause", "on the taken edge of a `!= nil` test of the cause")
+			return
+		}
 		for _, o := range core.Origins(v, core.OriginOpts{}) {
 			switch x := o.(type) {
 			case *ssa.UnOp:
